@@ -3,6 +3,7 @@ package engine
 import (
 	"context"
 	"fmt"
+	"io"
 	"io/fs"
 	"strings"
 )
@@ -130,6 +131,11 @@ func (vm *VM) compile(ctx context.Context, text *text, s string, args ...interfa
 
 			text.buf = append(text.buf, cs...)
 		}
+	}
+	if p.lexer.partial {
+		// The text ends inside a quoted token or a bracketed comment: it's as incomplete as a text that
+		// ends inside a clause.
+		return io.EOF
 	}
 	return nil
 }
